@@ -500,6 +500,43 @@ def _r043(ctx: Ctx) -> None:
                key='run_once|effective-error-args', facts=ast.unparse(c))
 
 
+def _r043_values(ctx: Ctx) -> None:
+    """The logical effect itself, not only its layout: get_effective_error on fully symbolic logicals and errors
+    (every X and Z bit a GF(2) variable, so logicals of mixed type as deformed codes have them) must give, entry by
+    entry, the symplectic product of the error with the matching logical."""
+    from .c03 import SymHooks, _sym_matrix
+    from ..domains import Poly
+    m = ctx.model
+    mi, fn = m.func('panqec.bpauli', 'get_effective_error')
+    site = site_of(mi, fn)
+    n = 2
+
+    def omega(a, r, b, s_):
+        p_ = Poly.const(0)
+        for i in range(n):
+            p_ = p_ + Poly.var(f'{a}{r}x{i}') * Poly.var(f'{b}{s_}z{i}') + Poly.var(f'{a}{r}z{i}') * Poly.var(f'{b}{s_}x{i}')
+        return p_ % 2
+    for k in (1, 2):
+        for mm in (None, 2):
+            LX, LZ, E = _sym_matrix('lx', k, n), _sym_matrix('lz', k, n), _sym_matrix('e', mm, n)
+            it = Interp(m, SymHooks())
+            outs = guard('R04.3', mi, fn)(lambda: it.explore(lambda: it.call_closure(Closure(fn, mi), [E, LX, LZ], {}, fn)))
+            ctx.need(len(outs) == 1 and outs[0].kind == 'return' and isinstance(outs[0].value, np.ndarray), 'R04.3', site,
+                     f'get_effective_error on symbolic operands (k={k}, m={mm}): {outs!r}')
+            v = outs[0].value
+            rows = [v] if v.ndim == 1 else list(v)
+            want = [[omega('lz', i, 'e', j) for i in range(k)] + [omega('lx', i, 'e', j) for i in range(k)]
+                    for j in range(mm or 1)]
+            got = [[x for x in r] for r in rows]
+            ok = len(got) == len(want) and all(len(g) == len(w) and all(isinstance(a, Poly) and a == b for a, b in zip(g, w))
+                                               for g, w in zip(got, want))
+            ctx.ob('R04.3', site, f'get_effective_error = symplectic products with the logicals, entry by entry (k={k}, '
+                                  f'{"one error" if mm is None else f"{mm} errors"}, logicals of mixed X/Z type)', ok,
+                   f'got {[[repr(x) for x in r] for r in got]!r}; expected X-effect_i = omega(logicals_z[i], e), '
+                   f'Z-effect_i = omega(logicals_x[i], e) with omega(a,b) = sum_j a.x_j b.z_j + a.z_j b.x_j mod 2',
+                   key=f'get_effective_error|values[k={k},m={mm}]')
+
+
 def run(ctx: Ctx) -> None:
     ctx.rule('R04.1', 'success <=> in codespace and no logical error (truth tables of every success test)', floor=6)
     ctx.rule('R04.2', 'in_codespace = all syndrome bits zero; is_logical_error = some logical effect bit set', floor=2)
@@ -516,6 +553,8 @@ def run(ctx: Ctx) -> None:
         _r042(ctx)
     with ctx.part():
         _r043(ctx)
+    with ctx.part():
+        _r043_values(ctx)
     from .c06 import code_state_rule
     with ctx.part():
         code_state_rule(ctx, 'R04.4')
